@@ -7,7 +7,7 @@
 
 pub mod args;
 pub mod callengine;
-// pub mod frame;
+pub mod frame;
 pub mod json;
 pub mod panics;
 pub mod procmon;
